@@ -15,3 +15,14 @@ func VerifState(m Mailbox) (status uint32, sysNum, userNum int32, suspended uint
 	}
 	return 0, 0, 0, 0, false
 }
+
+// VerifRecipient returns the recipient of a shipped mailbox (read-only accessor for the harness).
+func VerifRecipient(m Mailbox) Recipient {
+	switch v := m.(type) {
+	case *LockFree:
+		return v.recipient
+	case *GlobalOrderedLockFree:
+		return v.recipient
+	}
+	return nil
+}
